@@ -88,6 +88,67 @@ family! {
     (35, "F1c:0.T0",                         f35, None, [unsafe extern "C"], (), ()),
 }
 
+pub struct BoolEntry {
+    pub descr: String,
+    pub mk_target: fn() -> FuncPtr,
+    pub target_addr: fn() -> usize,
+}
+
+/// parameter shapes x return shapes (cross product) for the forced-boolean gate: return types that
+/// contain parentheses / end in `-> bool`, combined with parameter lists that nest parentheses
+macro_rules! boolfam {
+    (params: [ $( ($pn:ident, $pd:literal, $pc:literal, $ps:tt) ),* ]; rets: $rets:tt) => {
+        pub fn bool_family() -> Vec<BoolEntry> {
+            let mut v = Vec::new();
+            $( boolfam!(@row v; $pn, $pd, $pc, $ps; $rets); )*
+            v
+        }
+    };
+    (@row $v:ident; $pn:ident, $pd:literal, $pc:literal, $ps:tt; [ $( ($rn:ident, $rd:literal, $r:ty) ),* ]) => {
+        $( boolfam!(@one $v; $pn, $pd, $pc, $ps; $rn, $rd, $r); )*
+    };
+    (@one $v:ident; $pn:ident, $pd:literal, $pc:literal, ($($p:ty),*); $rn:ident, $rd:literal, $r:ty) => {
+        {
+            #[allow(unused, non_snake_case)]
+            mod $rn {
+                #[allow(unused_imports)] use super::*;
+                pub mod $pn {
+                    #[allow(unused_imports)] use super::super::*;
+                    #[inline(never)] pub fn t($(_: $p),*) -> $r { unimplemented!() }
+                }
+            }
+            $v.push(BoolEntry {
+                descr: format!("F0r:{}{}.{}", $pc, $pd, $rd),
+                mk_target: || shadow::func!($rn::$pn::t, fn($($p),*) -> $r),
+                target_addr: || $rn::$pn::t as usize,
+            });
+        }
+    };
+}
+
+boolfam! {
+    params: [
+        (p0, "", "0", ()),
+        (p1, ".Pi32", "1", (i32)),
+        (p2, ".T2.Pi32.Pi32", "1", ((i32, i32))),
+        (p3, ".F0r:1.Pi32.Pi32", "1", (fn(i32) -> i32)),
+        (p4, ".Pi32.T1.Pu8", "2", (i32, (u8,))),
+        (p5, ".F0r:0.Pbool", "1", (fn() -> bool))
+    ];
+    rets: [
+        (r_bool, "Pbool", bool),
+        (r_unit, "T0", ()),
+        (r_i32, "Pi32", i32),
+        (r_fn_bool, "F0r:0.Pbool", fn() -> bool),
+        (r_ufn_bool, "F1r:1.Pu8.Pbool", unsafe fn(u8) -> bool),
+        (r_cfn_bool, "F0c:0.Pbool", extern "C" fn() -> bool),
+        (r_ptr_fn_bool, "Q0.F0r:0.Pbool", *const fn() -> bool),
+        (r_dyn_bool, "R0.D0.Pbool", &'static dyn Fn() -> bool),
+        (r_tup_bool, "T1.Pbool", (bool,)),
+        (r_fn_tup, "F0r:1.T2.Pi32.Pi32.Pbool", fn((i32, i32)) -> bool)
+    ]
+}
+
 /// strip higher-ranked binders and lifetimes from a `type_name` string
 fn canon(s: &str) -> String {
     let mut out = String::new();
@@ -300,6 +361,24 @@ pub fn run(_a: &Args, out: &mut impl Write) {
         }));
         let after = unsafe { arena::read(ta, 16) };
         writeln!(out, "boolgate {} | {} restored={}", a.descr, classify(&r), (before == after) as u8).unwrap();
+    }
+    for e in bool_family() {
+        let ta = (e.target_addr)();
+        let before = unsafe { arena::read(ta, 16) };
+        let mt = e.mk_target;
+        let r = quiet_catch(std::panic::AssertUnwindSafe(move || {
+            let mut inj = InjectorPP::new();
+            let res = std::panic::catch_unwind(std::panic::AssertUnwindSafe(|| inj.when_called(mt()).will_return_boolean(false)));
+            let g = inj.verif_guards().len();
+            if let Err(err) = res {
+                if g != 0 {
+                    panic!("guard-after-refusal");
+                }
+                std::panic::resume_unwind(err);
+            }
+        }));
+        let after = unsafe { arena::read(ta, 16) };
+        writeln!(out, "boolgate {} | {} restored={}", e.descr, classify(&r), (before == after) as u8).unwrap();
     }
     {
         let r = quiet_catch(|| unsafe {
